@@ -59,13 +59,17 @@ pub struct Engine {
     pub cfg: RunCfg,
     pub acc: Mutex<Acc>,
     pub start: Instant,
+    /// in-process engines: a single case that does not return within this many seconds is reported
+    /// (the stuck thread cannot be stopped, so the hook writes the results and exits the process)
+    pub hang_limit_s: Option<u64>,
+    pub on_hang: Mutex<Option<Box<dyn Fn(&Engine) + Send + Sync>>>,
 }
 
 pub static INFRA: AtomicBool = AtomicBool::new(false);
 
 impl Engine {
     pub fn new(cfg: RunCfg) -> Engine {
-        Engine { cfg, acc: Mutex::new(Acc::default()), start: Instant::now() }
+        Engine { cfg, acc: Mutex::new(Acc::default()), start: Instant::now(), hang_limit_s: None, on_hang: Mutex::new(None) }
     }
 
     pub fn failed(&self) -> bool {
@@ -116,13 +120,37 @@ impl Engine {
         let t0 = Instant::now();
         let results: Mutex<Vec<(usize, String, C)>> = Mutex::new(Vec::new());
         let evals = AtomicU64::new(0);
+        // per shard: the case in progress and when it started
+        let in_progress: Vec<Mutex<Option<(Instant, C)>>> = (0..shards).map(|_| Mutex::new(None)).collect();
+        let done = AtomicBool::new(false);
         std::thread::scope(|sc| {
-            for shard in 0..shards {
+            if let Some(limit) = self.hang_limit_s {
+                let in_progress = &in_progress;
+                let done = &done;
+                let part = part.to_string();
+                sc.spawn(move || {
+                    while !done.load(Ordering::SeqCst) {
+                        std::thread::sleep(std::time::Duration::from_millis(500));
+                        for slot in in_progress.iter() {
+                            let stuck = { slot.lock().unwrap().as_ref().filter(|(t, _)| t.elapsed().as_secs() >= limit).map(|(_, c)| c.clone()) };
+                            if let Some(c) = stuck {
+                                self.record_violation(&part, &format!("the check of this case did not return within {} s (evaluation does not terminate?)", limit), serde_json::to_value(&c).unwrap_or(Value::Null));
+                                if let Some(h) = self.on_hang.lock().unwrap().as_ref() {
+                                    h(self);
+                                }
+                                std::process::exit(1);
+                            }
+                        }
+                    }
+                });
+            }
+            let workers: Vec<_> = (0..shards).map(|shard| {
                 let mk_strat = &mk_strat;
                 let check = &check;
                 let results = &results;
                 let evals = &evals;
                 let part = part.to_string();
+                let slot = &in_progress[shard];
                 sc.spawn(move || {
                     let seedsrc = format!("{}|{}|{}|{}", self.cfg.seed, self.cfg.property, part, shard);
                     let config = Config {
@@ -142,7 +170,14 @@ impl Engine {
                         if INFRA.load(Ordering::SeqCst) {
                             return Ok(());
                         }
-                        match check(&c) {
+                        if self.hang_limit_s.is_some() {
+                            *slot.lock().unwrap() = Some((Instant::now(), c.clone()));
+                        }
+                        let verdict = check(&c);
+                        if self.hang_limit_s.is_some() {
+                            *slot.lock().unwrap() = None;
+                        }
+                        match verdict {
                             Verdict::Pass(p) => {
                                 if !failed_once.load(Ordering::SeqCst) {
                                     evals.fetch_add(1, Ordering::SeqCst);
@@ -177,8 +212,12 @@ impl Engine {
                             a.infra = Some(format!("proptest aborted: {}", reason.message()));
                         }
                     }
-                });
+                })
+            }).collect();
+            for w in workers {
+                let _ = w.join();
             }
+            done.store(true, Ordering::SeqCst);
         });
         let mut res = results.into_inner().unwrap();
         res.sort_by_key(|r| r.0);
